@@ -1,6 +1,7 @@
 package props
 
 import (
+	"os"
 	"fmt"
 	"go/ast"
 	"go/types"
@@ -15,7 +16,7 @@ func init() {
 	register(&Property{
 		ID:        "C09",
 		Technique: "static analysis: read-your-writes rule over the package-local call graph (loops over a command's elements that read committed state, write the batch and count must de-duplicate the element), guard implication by truth table (meta deleted iff size <= 0), FOLLOW pairing of the two sorted-set indexes",
-		Explanation: "Decides three structural conditions of 'stored size = number of stored elements': (N1) in package rockredis every loop over a slice parameter of a write command whose body (through same-package callees) both reads committed state and writes the batch, and which updates a counter that flows into *IncrSize / IncrTableKeyCount or the reply, de-duplicates the element first (reads do not see the uncommitted batch, so a member repeated inside one command is otherwise counted twice); (N2) the size meta key is deleted exactly when the size reaches zero and the table key counter moves only on the empty<->non-empty transitions; (N3) the member->score and score->member keys of a sorted set are written and deleted together and a score change deletes the old score key. (N6) index clamps: for every `if x REL B { x = E }` on integers in package rockredis with E in {B-1, B, B+1}, no value that passes the test lies beyond E (a clamp `if stop > llen { stop = llen-1 }` lets stop == llen through). N5 also rejects a range whose start and stop are the same key (empty range). (N7) an element is added only under a version key obtained from prepareCollKeyForWrite; (N8) LTRIM deletes no key that is the exclusive end of one of its range deletes.",
+		Explanation: "Decides three structural conditions of 'stored size = number of stored elements': (N1) in package rockredis every loop over a slice parameter of a write command whose body (through same-package callees) both reads committed state and writes the batch, and which updates a counter that flows into *IncrSize / IncrTableKeyCount or the reply, de-duplicates the element first (reads do not see the uncommitted batch, so a member repeated inside one command is otherwise counted twice); (N2) the size meta key is deleted exactly when the size reaches zero and the table key counter moves only on the empty<->non-empty transitions; (N3) the member->score and score->member keys of a sorted set are written and deleted together and a score change deletes the old score key. (N6) index clamps: for every `if x REL B { x = E }` on integers in package rockredis with E in {B-1, B, B+1}, no value that passes the test lies beyond E (a clamp `if stop > llen { stop = llen-1 }` lets stop == llen through). N5 also rejects a range whose start and stop are the same key (empty range). (N7) an element is added only under a version key obtained from prepareCollKeyForWrite; (N8) LTRIM deletes no key that is the exclusive end of one of its range deletes. (N9) inside the iterator loops of HVALS/HKEYS/HGETALL the conditions on the iterator and on locals read from its value at the append are no stronger than: valid, value not nil. (N10) LTRIM clamps start to 0 and stop to the tail by guarded assignments whose tests dominate the store of the new head and tail.",
 		NotDecided: "agreement of the different enumeration commands with each other (iterator behaviour), list head/tail arithmetic, numeric correctness of the counts, failed commands inside one apply batch (C11-A3).",
 		Assumptions: []string{"the de-duplication idiom is recognised by shape (a map keyed by the element with membership test and insertion, in the loop or in a helper applied to the slice before the loop)", "callees are resolved statically within package rockredis"},
 		Run: runC09,
@@ -358,6 +359,12 @@ func RangePairs(c *Ctx, rule string) int {
 					detail = "start and stop are the same key: the range is empty and nothing is deleted; " + detail
 				}
 				r.Check(rule, fmt.Sprintf("%s: DeleteRange over %s positions of one collection", u.Name, shortName(na)), u.Pos(s.Pos), ok, detail)
+			default:
+				// two encoders that are neither a start/stop pair nor the same positional encoder: the range runs from one
+				// key space into another (for instance from a zset's member keys to the end of its score index)
+				n++
+				r.Check(rule, fmt.Sprintf("%s: DeleteRange(%s, %s) takes both ends from one pair of range encoders", u.Name, shortName(na), shortName(nb)), u.Pos(s.Pos), false,
+					fmt.Sprintf("start key from %s(%s), stop key from %s(%s): not a start/stop pair", shortName(na), strings.Join(ta, ", "), shortName(nb), strings.Join(tb, ", ")))
 			}
 		}
 	}
@@ -676,4 +683,128 @@ func c09N8(c *Ctx) {
 func init() {
 	old := registry["C09"].Run
 	registry["C09"].Run = func(c *Ctx) { old(c); c09N8(c) }
+}
+
+// N9: an enumeration returns every stored element: inside the iterator loop of HVALS/HKEYS/HGETALL/SMEMBERS the
+// record is appended for every position at which the iterator is valid; the only element that may be skipped is one
+// whose value the engine reports as absent (nil). An element whose value is the empty string is stored, counted by
+// HLEN and returned by the other enumerations, so a skip on emptiness makes the enumerations disagree with the count.
+func c09N9(c *Ctx) {
+	r := c.R
+	r.Clause("C09-N9", "enumerations skip no stored element (only a nil value, never an empty one)")
+	for _, fn := range []struct{ name, result, allowed string }{
+		{"rockredis.(*RockDB).HValues", "vals", "it.Valid() && !(va == nil)"},
+		{"rockredis.(*RockDB).HKeys", "vals", "it.Valid()"},
+		{"rockredis.(*RockDB).hGetAll", "vals", "it.Valid()"},
+	} {
+		u := c.unit("C09-N9", fn.name)
+		if u == nil {
+			continue
+		}
+		n := 0
+		// the loop may sit in a function literal of the command (doScan)
+		for _, lu := range append([]*an.Unit{u}, u.Lits()...) {
+			for _, s := range lu.Match(an.LocalStore(fn.result)) {
+				if s.RHS == nil || !strings.HasPrefix(lu.C.Term(s.RHS), "append("+fn.result) {
+					continue
+				}
+				n++
+				// the conditions that speak about the iterator or about a local read from its current value
+				terms := "it."
+				for _, d := range lu.Sites {
+					if d.Kind == flow.SStore && d.RHS != nil && lu.C.Term(d.RHS) == "it.Value()" {
+						if id, isId := ast.Unparen(d.LHS).(*ast.Ident); isId {
+							terms += "|" + lu.C.Term(id) + ")|" + lu.C.Term(id) + " |== " + lu.C.Term(id)
+						}
+					}
+				}
+				pc := projectOn(lu.SitePC(s), terms)
+				res := flow.Implies(c.W.Parse(fn.allowed), pc)
+				if os.Getenv("ZR_DEBUG_N9") != "" {
+					fmt.Fprintf(os.Stderr, "N9 %s: full %s | projected %s | holds %v %q\n", u.Name, lu.SitePC(s), pc, res.Holds, res.Undecided)
+				}
+				r.Check("C09-N9", u.Name+": a record is appended at every valid position ("+fn.allowed+")", lu.Pos(s.Pos), res.Holds && res.Undecided == "",
+					"conditions on the iterator at the append: "+pc.String())
+			}
+		}
+		r.Min("C09-N9", n, 1, fn.name+": appends to the result inside the loop")
+	}
+}
+
+func init() {
+	old := registry["C09"].Run
+	registry["C09"].Run = func(c *Ctx) { old(c); c09N9(c) }
+}
+
+// N10: LTRIM with a negative start before the head keeps the whole head: after `start = llen + start` a start that is
+// still negative is clamped to 0 before the new head sequence `headSeq + start` is stored; without the clamp the stored
+// head lies in front of the real first item and LLEN counts positions that LRANGE cannot return. Likewise the stop is
+// clamped to the last item. The clamp is a guarded assignment whose test dominates the store of the new bounds.
+func c09N10(c *Ctx) {
+	r := c.R
+	r.Clause("C09-N10", "LTRIM clamps start and stop into the list before the new head/tail are stored")
+	u := c.unit("C09-N10", "rockredis.(*RockDB).ltrim2")
+	if u == nil {
+		return
+	}
+	set := u.Match(an.Call("rockredis.(*RockDB).lSetMeta"))
+	r.Min("C09-N10", len(set), 1, "lSetMeta calls of ltrim2")
+	for _, cs := range set {
+		r.Check("C09-N10", u.Name+": the new head and tail are headSeq+start and headSeq+stop", u.Pos(cs.Pos),
+			u.ArgTerm(cs, 2) == "(headSeq + start)" && u.ArgTerm(cs, 3) == "(headSeq + stop)", u.ArgTerm(cs, 2)+", "+u.ArgTerm(cs, 3))
+		for _, cl := range []struct{ v, val, guard, what string }{
+			{"start", "0", "start < 0", "a start before the head is clamped to the head"},
+			{"stop", "(llen - 1)", "!(stop < llen) | (llen - 1) < stop", "a stop beyond the tail is clamped to the tail"},
+		} {
+			found := false
+			detail := "no guarded assignment " + cl.v + " = " + cl.val
+			for _, s := range u.Match(an.LocalStore(cl.v)) {
+				if s.RHS == nil || u.C.Term(s.RHS) != cl.val {
+					continue
+				}
+				under := false
+				for _, g := range strings.Split(cl.guard, " | ") {
+					if flow.Implies(u.BlockEntryPC(s), c.W.Parse(g)).Holds {
+						under = true
+					}
+				}
+				if !under {
+					detail = "the assignment is not under " + cl.guard + ": " + u.BlockEntryPC(s).String()
+					continue
+				}
+				// the block that makes the test: the closest dominator of the assignment that also dominates the store
+				// of the bounds; the assignment hangs directly under it (its branch edge, then the assignment)
+				doms := u.G.Dominators(s.Block)
+				at := -1
+				for i := len(doms) - 2; i >= 0; i-- {
+					if u.G.Dominates(doms[i], cs.Block) {
+						at = i
+						break
+					}
+				}
+				if at < 0 || len(doms)-1-at > 2 {
+					detail = "the test does not lie on every path to the store of the new bounds"
+					continue
+				}
+				// nothing recomputes the variable between the clamp and the store of the bounds
+				later := false
+				for _, d := range u.Match(an.LocalStore(cl.v)) {
+					if d != s && d.Pos > s.Pos && d.Pos < cs.Pos {
+						later = true
+					}
+				}
+				if later {
+					detail = cl.v + " is assigned again after the clamp"
+					continue
+				}
+				found = true
+			}
+			r.Check("C09-N10", u.Name+": "+cl.what, u.Pos(cs.Pos), found, detail)
+		}
+	}
+}
+
+func init() {
+	old := registry["C09"].Run
+	registry["C09"].Run = func(c *Ctx) { old(c); c09N10(c) }
 }
